@@ -272,6 +272,13 @@ def _mutated_stream(draw, gen: int):
         frames[i] = a[: draw(st.integers(1, len(a) - 1))] + b[draw(st.integers(1, len(b) - 1)):]
     elif how == "random":
         frames[i] = draw(st.binary(min_size=1, max_size=60))
+    elif how == "stride" and gen == 5 and fr.mtype == 0xC0 and len(fr.data) >= 8:
+        # same records, but announced behind a non-empty "normal data" section (generic 0xC0 layout, lengths consistent)
+        sub, _z, normal, rlen, rcount = struct.unpack(">BBHHH", fr.data[:8])
+        extra = draw(st.binary(min_size=1, max_size=6))
+        data = bytes([sub, 0]) + struct.pack(">HHH", normal + len(extra), rlen, rcount) + extra + fr.data[8:]
+        frames[i] = _reframe(gen, frames[i], data)
+        how = "c0-normal-section"
     return {"stream": b"".join(frames), "eof": eof, "how": how, "originals": originals}
 
 
@@ -288,7 +295,8 @@ def shards(tier: str):
 
 def floors(tier: str):
     return {"unknown-type": 400, "unknown-ext-sub": 100, "unknown-c0-sub": 200, "model:error": 100, "model:clean": 100,
-            "decoder-rejected": 20, "how:recomputed": 100, "how:truncate": 30}
+            "decoder-rejected": 20, "how:recomputed": 100, "how:truncate": 30,
+            "how:c0-normal-section": 40}
 
 
 def run_shard(spec, seed: int, tier: str):
